@@ -19,7 +19,7 @@ import subprocess
 from gen import configgen as cg
 from vlib import core
 
-COQ_TARGETS = ["Props/C20.vo"]
+COQ_TARGETS = ["Props/C20.vo", "Model/Config.vo", "Gen/ConfigKeys_gen.vo"]
 PROPS = "Props/C20.v"
 HARNESS = "verifh_c20"
 TRUSTED = [
